@@ -56,6 +56,7 @@ static struct {
   /* threads of one worker that wait in yield loops: words watched since another worker last ran */
   int yl_n[MV_MAXW]; long yl_epoch[MV_MAXW];
   const volatile void * yl_addr[MV_MAXW][YL_MAX]; size_t yl_sz[MV_MAXW][YL_MAX]; uint64_t yl_val[MV_MAXW][YL_MAX];
+  void * yl_th[MV_MAXW][YL_MAX];
   long switches;
   uint64_t hash;
   long now_ns;
@@ -140,12 +141,7 @@ static int enabled(int v) {
     int loc, oth; unsigned long s = myth_verif_idle_sig(v, &loc, &oth);
     return readval(S.waddr[v], S.wsz[v]) != S.wsnap[v] || s != S.sigsnap[v] || oth || loc;
   }
-  case ST_YMULTI: {
-    int oth; unsigned long s = sig_others(v, &oth);
-    if (s != S.sigsnap[v] || oth) return 1;
-    for (int i = 0; i < S.yl_n[v]; i++) if (readval(S.yl_addr[v][i], S.yl_sz[v][i]) != S.yl_val[v][i]) return 1;
-    return 0;
-  }
+  case ST_YMULTI: return 1;   /* runnable, but every thread it holds seems to wait: lowest priority */
   default: return 0;
   }
 }
@@ -197,8 +193,10 @@ static void decide(int w, int pid) {
     for (int v = 0; v < S.nw; v++) n += snprintf(b + n, sizeof b - n, " w%d=%d", v, S.st[v]);
     finish_verdict(MV_DEADLOCK, b);
   }
-  int d = w;
-  if (!(mask >> w & 1)) { for (int k = 1; k <= S.nw; k++) { int v = (w + k) % S.nw; if (mask >> v & 1) { d = v; break; } } }
+  int d = w, hi = 0;
+  for (int v = 0; v < S.nw; v++) if ((mask >> v & 1) && S.st[v] != ST_YMULTI) hi |= 1 << v;
+  int pref = hi ? hi : mask;   /* fairness: a worker whose threads all wait in yield loops runs only if nobody else can */
+  if (!(pref >> w & 1)) { for (int k = 1; k <= S.nw; k++) { int v = (w + k) % S.nw; if (pref >> v & 1) { d = v; break; } } }
   alts[nalt++] = d;
   for (int v = 0; v < S.nw; v++) if ((mask >> v & 1) && v != d) alts[nalt++] = v;
   int c = next_choice(MV_STEP_SCHED, pid, w, mask, nalt);
@@ -216,6 +214,19 @@ static void decide(int w, int pid) {
 }
 
 static int in_control(void) { return S.mode == MODE_CTL && tl_w >= 0; }
+
+/* hook points that a thread executes while it merely yields in a wait loop; any other point
+   means some thread of this worker did real work since the last yield-loop marker */
+static int yield_only_point(int id) {
+  switch (id) {
+  case mythv_p_cas: case mythv_p_spin_unlock: case mythv_p_spin_lock_wait:
+  case mythv_p_q_pop_check: case mythv_p_q_pop_dec: case mythv_p_q_pop_base: case mythv_p_q_pop_slot:
+  case mythv_p_q_take_check: case mythv_p_q_take_inc: case mythv_p_q_take_top: case mythv_p_q_take_slot: case mythv_p_q_take_rollback:
+  case mythv_p_q_put: case mythv_p_random: case mythv_p_once_wait: case mythv_p_once_load: case mythv_p_user + 1:
+    return 1;
+  default: return 0;
+  }
+}
 
 static void check_owner(const char * what) {
   if (S.cur != tl_w) {
@@ -237,6 +248,7 @@ void mythv_point(int id, const volatile void * addr, size_t sz) {
   (void)addr; (void)sz;
   if (!in_control()) return;
   check_owner("point");
+  if (!yield_only_point(id)) S.yl_n[tl_w] = 0;
   S.st[tl_w] = ST_READY;
   decide(tl_w, id);
 }
@@ -263,13 +275,14 @@ void mythv_yspin(int id, const volatile void * addr, size_t sz) {
        all turn out to wait in yield loops as well (the same word comes round unchanged) */
     if (S.yl_epoch[w] != S.switches) { S.yl_n[w] = 0; S.yl_epoch[w] = S.switches; }
     uint64_t val = readval(addr, sz);
+    extern void * mythv_cur_thread(int rank);
+    void * me = mythv_cur_thread(w);
     int seen = 0;
-    for (int i = 0; i < S.yl_n[w]; i++) if (S.yl_addr[w][i] == addr) { seen = (S.yl_val[w][i] == val); S.yl_val[w][i] = val; if (!seen) S.yl_n[w] = 0; break; }
+    for (int i = 0; i < S.yl_n[w]; i++) if (S.yl_addr[w][i] == addr && S.yl_th[w][i] == me) { seen = (S.yl_val[w][i] == val); S.yl_val[w][i] = val; if (!seen) S.yl_n[w] = 0; break; }
     if (seen) {
-      int o2; S.sigsnap[w] = sig_others(w, &o2);
       S.st[w] = ST_YMULTI; decide(w, id); S.yl_n[w] = 0; S.yl_epoch[w] = S.switches; return;
     }
-    if (S.yl_n[w] < YL_MAX) { int k = S.yl_n[w]++; S.yl_addr[w][k] = addr; S.yl_sz[w][k] = sz; S.yl_val[w][k] = val; }
+    if (S.yl_n[w] < YL_MAX) { int k = S.yl_n[w]++; S.yl_addr[w][k] = addr; S.yl_sz[w][k] = sz; S.yl_val[w][k] = val; S.yl_th[w][k] = me; }
     S.st[w] = ST_READY; decide(w, id); return;
   }
   if (loc || oth) { S.st[w] = ST_READY; decide(w, id); return; }
@@ -319,6 +332,7 @@ int mythv_choose(int id, int n) {
 int mythv_clock(struct timespec * ts) {
   if (!in_control()) return 0;
   check_owner("clock");
+  S.yl_n[tl_w] = 0;
   int c = next_choice(MV_STEP_VALUE, mythv_p_clock, tl_w, 2, 2);
   S.now_ns += c ? MV_JUMP_NS : MV_TICK_NS;
   mv_sh->steps[mv_sh->nsteps - 1].tgt = c;
